@@ -18,6 +18,7 @@ EXPLANATION = (
     'Also decided: a blank PYROMETA tag set is rejected; tags are joined with the separator they are split on; the sqlite storage writes the given uri on every path. '
     'Also decided (round 10): The wire form of a URI/Proxy/Daemon carries __getstate__() unchanged; the parser stores the object part exactly as matched; the broadcast responder and locate_ns use one codec; set_metadata rewrites an entry under the lock hold it read it in (shared from C15). '
     'Also decided (round 9): lookup builds the returned URI from the entry read in that call, not from state kept on the name server. '
+    'Also decided (round 11): Empty PYROMETA tags never enter the tag set; __str__ joins the tag set exactly on the PYROMETA branch; the broadcast responder edits a copy of the uri made for the datagram. '
 )
 
 U = "Pyro5.core.URI"
